@@ -82,13 +82,21 @@ def check(col: Collector, tier: str):
                                 f"code line {''.join(shape(ps))[:80]!r} pastes {[src(b) for b in bad]} between quotes", f"{f.module.rel}:{n.lineno}")
     # the escaper
     esc = repo.function("cpp_string_literal")
+    # the table the characters are looked up in (`<c> in T` / `T[<c>]` / `T.get(<c>`): a literal dict bound in the function or a
+    # module-level literal dict
     table = None
+    from sa.core.finite_eval import literal_tables
+    mod_tables = literal_tables(esc.module.tree)
     for n in walk_no_nested(esc.node):
         if isinstance(n, ast.Assign) and isinstance(n.value, ast.Dict):
             try:
                 table = {ast.literal_eval(k): ast.literal_eval(v) for k, v in zip(n.value.keys, n.value.values)}
             except Exception:
                 table = None
+    if table is None:
+        used = {x.id for x in ast.walk(esc.node) if isinstance(x, ast.Name) and isinstance(mod_tables.get(x.id), dict)}
+        if len(used) == 1:
+            table = mod_tables[used.pop()]
     want = {"\\": "\\\\", '"': '\\"', "\n": "\\n"}
     ok = table is not None and all(table.get(k) == v for k, v in want.items())
     col.add("C18.R1", esc.short, "escape-table-covers-backslash-quote-newline", ok,
